@@ -298,10 +298,9 @@ func c10Phase2(r *Run, scn Scenario, U []Account, states []*Node, known map[stri
 					r.Violate("C10 rejected privileged transaction changed state: "+tx.Name,
 						fmt.Sprintf("%s: %v", a.Desc, DiffDumps(n.Dump, post)), scn.Replay("actions", path))
 				case auth && !o.OK:
-					rp := scn.Replay("actions", path)
-					rp.Expected, rp.Observed = "MUST_SUCCEED (submitter holds "+tx.Role.String()+")", o.Err
-					r.Violate(fmt.Sprintf("C10 %s rejected from the holder of %s", tx.Name, tx.Role),
-						fmt.Sprintf("roles %s: %s failed: %s", m.key(), a.Desc, o.Err), rp)
+					// the statement is one-directional ("only when submitted by the holder"); a holder being
+					// refused has some other cause (parameters, another property) and is only recorded
+					r.Truncate("C10: " + tx.Name + " was refused for the holder of " + tx.Role.String() + " in some role state; authorisation of that type is judged only through the non-holders")
 				case auth && len(o.Events) == 0 && HashBytes(post) == HashBytes(n.Dump):
 					r.Violate("C10 authorised transaction had no effect: "+tx.Name, a.Desc, scn.Replay("actions", path))
 				}
